@@ -104,7 +104,24 @@ static bool verts_near(const Paths64& a, const Paths64& b, ld lim) {
 // symbols: 0 AddSubject P1, 1 AddSubject P2, 2 AddOpenSubject L, 3 AddClip Q, 4 AddReuseableData R (c64) / AddClip P2 (cd),
 //          5 toggle PreserveCollinear, 6 toggle ReverseSolution, 7 Exec paths (Intersection, NonZero), 8 Exec paths (Union, EvenOdd),
 //          9 Exec tree (Difference, Positive), 10 Exec tree (Xor, Negative), 11 Clear
+#ifdef USINGZ
+static const int A_CLIP = 16;   // 12: Exec paths (NoClip), 13: Exec tree (NoClip), 14: SetZCallback(f), 15: SetZCallback(nullptr)
+#else
 static const int A_CLIP = 14;   // 12: Exec paths (NoClip), 13: Exec tree (NoClip)
+#endif
+#ifdef USINGZ
+// Z build: results are compared including z; the callback is a pure function of its arguments
+static void zcb64(const Point64& a, const Point64& b, const Point64& c2, const Point64& d, Point64& pt) { pt.z = 1000 + ((a.z + 3 * b.z + 5 * c2.z + 7 * d.z) & 0xffff); }
+static void zcbd(const PointD& a, const PointD& b, const PointD& c2, const PointD& d, PointD& pt) { pt.z = 1000 + ((a.z + 3 * b.z + 5 * c2.z + 7 * d.z) & 0xffff); }
+static bool z_eq(const Paths64& a, const Paths64& b) { if (a.size() != b.size()) return false; for (size_t i = 0; i < a.size(); ++i) { if (a[i].size() != b[i].size()) return false; for (size_t j = 0; j < a[i].size(); ++j) if (a[i][j].z != b[i][j].z) return false; } return true; }
+static bool z_eq(const PathsD& a, const PathsD& b) { if (a.size() != b.size()) return false; for (size_t i = 0; i < a.size(); ++i) { if (a[i].size() != b[i].size()) return false; for (size_t j = 0; j < a[i].size(); ++j) if (a[i][j].z != b[i][j].z) return false; } return true; }
+static void zlabel(Paths64& pp, int64_t base) { for (auto& p : pp) for (auto& pt : p) pt.z = base++; }
+static void zlabel(PathsD& pp, int64_t base) { for (auto& p : pp) for (auto& pt : p) pt.z = base++; }
+#else
+template <class T> static bool z_eq(const T&, const T&) { return true; }
+#endif
+// an Execute that throws is a result too (e.g. a stale callback proxy calling an empty std::function)
+template <class F> static int guarded(F f) { try { return f() ? 1 : 0; } catch (const std::exception&) { return 2; } }
 static bool admissible_clip(const std::vector<int>& seq, bool c64) {
   if (!c64) return true;
   int n = 0; for (int s : seq) { if (s == 11) n = 0; if (s == 4 && ++n > 1) return false; } return true;   // a container at most once between Clears
@@ -113,10 +130,15 @@ static bool admissible_clip(const std::vector<int>& seq, bool c64) {
 static Fail run_c64(const Case& c, const std::vector<int>& seq, long long& compared) {
   Fail f;
   ReuseableDataContainer64 rd; rd.AddPaths(c.P("RP"), PathType::Subject, false); rd.AddPaths(c.P("RO"), PathType::Subject, true);
-  Clipper64 used; bool pc = true, rev = false; std::vector<int> adds;
+  Clipper64 used; bool pc = true, rev = false, zcb = false; std::vector<int> adds;
+  Paths64 P1 = c.P("P1"), P2 = c.P("P2"), L = c.P("L"), Q = c.P("Q");
+#ifdef USINGZ
+  zlabel(P1, 1); zlabel(P2, 101); zlabel(L, 201); zlabel(Q, 301);
+#endif
+  (void)zcb;
   auto apply_add = [&](Clipper64& cl, int s) {
-    switch (s) { case 0: cl.AddSubject(c.P("P1")); break; case 1: cl.AddSubject(c.P("P2")); break; case 2: cl.AddOpenSubject(c.P("L")); break;
-      case 3: cl.AddClip(c.P("Q")); break; default: cl.AddReuseableData(rd); break; }
+    switch (s) { case 0: cl.AddSubject(P1); break; case 1: cl.AddSubject(P2); break; case 2: cl.AddOpenSubject(L); break;
+      case 3: cl.AddClip(Q); break; default: cl.AddReuseableData(rd); break; }
   };
   for (size_t k = 0; k < seq.size(); ++k) {
     int s = seq[k];
@@ -124,20 +146,27 @@ static Fail run_c64(const Case& c, const std::vector<int>& seq, long long& compa
     else if (s == 5) { pc = !pc; used.PreserveCollinear(pc); }
     else if (s == 6) { rev = !rev; used.ReverseSolution(rev); }
     else if (s == 11) { used.Clear(); adds.clear(); }
+#ifdef USINGZ
+    else if (s == 14) { used.SetZCallback(zcb64); zcb = true; }
+    else if (s == 15) { used.SetZCallback(nullptr); zcb = false; }
+#endif
     else {
       Clipper64 fresh; fresh.PreserveCollinear(pc); fresh.ReverseSolution(rev);
+#ifdef USINGZ
+      if (zcb) fresh.SetZCallback(zcb64);
+#endif
       for (int a : adds) apply_add(fresh, a);
       ++compared;
       if (s == 7 || s == 8 || s == 12) {
         ClipType ct = s == 7 ? ClipType::Intersection : s == 8 ? ClipType::Union : ClipType::NoClip; FillRule fr = s == 7 ? FillRule::NonZero : FillRule::EvenOdd;
-        Paths64 a, ao, b, bo; bool ra = used.Execute(ct, fr, a, ao), rb = fresh.Execute(ct, fr, b, bo);
+        Paths64 a, ao, b, bo; int ra = guarded([&] { return used.Execute(ct, fr, a, ao); }), rb = guarded([&] { return fresh.Execute(ct, fr, b, bo); });
         fold(hash_paths(a)); fold(hash_paths(ao));
-        if (ra != rb || !same_paths(a, b) || !same_paths(ao, bo)) { f.bad = true; f.step = (int)k; f.detail = "Execute(paths) on the used object differs from a fresh object with the same inputs"; return f; }
+        if (ra != rb || !same_paths(a, b) || !same_paths(ao, bo) || !z_eq(a, b) || !z_eq(ao, bo)) { f.bad = true; f.step = (int)k; f.detail = std::string("Execute(paths) on the used object differs from a fresh object with the same inputs") + (ra == 2 && rb != 2 ? " (the used object threw)" : ""); if (ra == 2 && rb != 2) f.tags.push_back("used_object_threw"); return f; }
       } else {
         ClipType ct = s == 9 ? ClipType::Difference : s == 10 ? ClipType::Xor : ClipType::NoClip; FillRule fr = s == 9 ? FillRule::Positive : FillRule::Negative;
-        PolyTree64 a, b; Paths64 ao, bo; bool ra = used.Execute(ct, fr, a, ao), rb = fresh.Execute(ct, fr, b, bo);
+        PolyTree64 a, b; Paths64 ao, bo; int ra = guarded([&] { return used.Execute(ct, fr, a, ao); }), rb = guarded([&] { return fresh.Execute(ct, fr, b, bo); });
         fold(tree_hash(a)); fold(hash_paths(ao));
-        if (ra != rb || !tree_eq(a, b) || !same_paths(ao, bo)) { f.bad = true; f.step = (int)k; f.detail = "Execute(tree) on the used object differs from a fresh object with the same inputs"; return f; }
+        if (ra != rb || !tree_eq(a, b) || !same_paths(ao, bo) || !z_eq(PolyTreeToPaths64(a), PolyTreeToPaths64(b)) || !z_eq(ao, bo)) { f.bad = true; f.step = (int)k; f.detail = "Execute(tree) on the used object differs from a fresh object with the same inputs"; return f; }
       }
     }
   }
@@ -147,7 +176,11 @@ static Fail run_c64(const Case& c, const std::vector<int>& seq, long long& compa
 static Fail run_cd(const Case& c, const std::vector<int>& seq, long long& compared) {
   Fail f; const int prec = (int)c.geti("prec", 2); const double div = c.getd("div", 4.0);
   PathsD P1 = toD(c.P("P1"), div), P2 = toD(c.P("P2"), div), L = toD(c.P("L"), div), Q = toD(c.P("Q"), div);
-  ClipperD used(prec); bool pc = true, rev = false; std::vector<int> adds;
+  ClipperD used(prec); bool pc = true, rev = false, zcb = false; std::vector<int> adds;
+#ifdef USINGZ
+  zlabel(P1, 1); zlabel(P2, 101); zlabel(L, 201); zlabel(Q, 301);
+#endif
+  (void)zcb;
   auto apply_add = [&](ClipperD& cl, int s) {
     switch (s) { case 0: cl.AddSubject(P1); break; case 1: cl.AddSubject(P2); break; case 2: cl.AddOpenSubject(L); break; case 3: cl.AddClip(Q); break; default: cl.AddClip(P2); break; }
   };
@@ -157,20 +190,27 @@ static Fail run_cd(const Case& c, const std::vector<int>& seq, long long& compar
     else if (s == 5) { pc = !pc; used.PreserveCollinear(pc); }
     else if (s == 6) { rev = !rev; used.ReverseSolution(rev); }
     else if (s == 11) { used.Clear(); adds.clear(); }
+#ifdef USINGZ
+    else if (s == 14) { used.SetZCallback(zcbd); zcb = true; }
+    else if (s == 15) { used.SetZCallback(nullptr); zcb = false; }
+#endif
     else {
       ClipperD fresh(prec); fresh.PreserveCollinear(pc); fresh.ReverseSolution(rev);
+#ifdef USINGZ
+      if (zcb) fresh.SetZCallback(zcbd);
+#endif
       for (int a : adds) apply_add(fresh, a);
       ++compared;
       if (s == 7 || s == 8 || s == 12) {
         ClipType ct = s == 7 ? ClipType::Intersection : s == 8 ? ClipType::Union : ClipType::NoClip; FillRule fr = s == 7 ? FillRule::NonZero : FillRule::EvenOdd;
-        PathsD a, ao, b, bo; bool ra = used.Execute(ct, fr, a, ao), rb = fresh.Execute(ct, fr, b, bo);
+        PathsD a, ao, b, bo; int ra = guarded([&] { return used.Execute(ct, fr, a, ao); }), rb = guarded([&] { return fresh.Execute(ct, fr, b, bo); });
         fold(hash_pathsd(a)); fold(hash_pathsd(ao));
-        if (ra != rb || !pd_eq(a, b) || !pd_eq(ao, bo)) { f.bad = true; f.step = (int)k; f.detail = "ClipperD::Execute(paths) on the used object differs from a fresh object"; return f; }
+        if (ra != rb || !pd_eq(a, b) || !pd_eq(ao, bo) || !z_eq(a, b) || !z_eq(ao, bo)) { f.bad = true; f.step = (int)k; f.detail = std::string("ClipperD::Execute(paths) on the used object differs from a fresh object") + (ra == 2 && rb != 2 ? " (the used object threw)" : ""); if (ra == 2 && rb != 2) f.tags.push_back("used_object_threw"); return f; }
       } else {
         ClipType ct = s == 9 ? ClipType::Difference : s == 10 ? ClipType::Xor : ClipType::NoClip; FillRule fr = s == 9 ? FillRule::Positive : FillRule::Negative;
-        PolyTreeD a, b; PathsD ao, bo; bool ra = used.Execute(ct, fr, a, ao), rb = fresh.Execute(ct, fr, b, bo);
+        PolyTreeD a, b; PathsD ao, bo; int ra = guarded([&] { return used.Execute(ct, fr, a, ao); }), rb = guarded([&] { return fresh.Execute(ct, fr, b, bo); });
         fold(hash_pathsd(PolyTreeToPathsD(a)));
-        if (ra != rb || !treed_eq(a, b) || !pd_eq(ao, bo)) { f.bad = true; f.step = (int)k; f.detail = "ClipperD::Execute(tree) on the used object differs from a fresh object"; return f; }
+        if (ra != rb || !treed_eq(a, b) || !pd_eq(ao, bo) || !z_eq(PolyTreeToPathsD(a), PolyTreeToPathsD(b)) || !z_eq(ao, bo)) { f.bad = true; f.step = (int)k; f.detail = "ClipperD::Execute(tree) on the used object differs from a fresh object"; return f; }
       }
     }
   }
